@@ -293,7 +293,7 @@ def main(argv=None) -> int:
     workers = a.workers or min(bud.get("workers", 16), os.cpu_count() or 1)
     examples = a.examples or bud.get("examples", 100)
     seconds = a.seconds or bud.get("seconds", 60)
-    shrink_seconds = 20.0 if a.tier == "quick" else 240.0
+    shrink_seconds = float(os.environ.get("TV_SHRINK_SECONDS", "15" if a.tier == "quick" else "240"))
 
     total = Acc()
     harness_errors = []
